@@ -24,11 +24,12 @@ type Call struct {
 	Arg    int      // epoll_wait: msec; epoll_ctl: op; fcntl: cmd; accept4/socket: flags
 	Arg2   int      // epoll_ctl: target fd; fcntl: arg
 	Events uint32   // epoll_ctl
+	Data   uint64   // epoll_ctl: the 8 data bytes registered with the descriptor (poll_opt: an attachment pointer)
 	EvList []unix.EpollEvent
 	Sa     unix.Sockaddr // sendto target / accept4, recvfrom result
 	Ret    int
 	Err    error
-	Skip   bool // set by Before: do not perform the real call, use Ret/Err/Sa as given
+	Skip   bool  // set by Before: do not perform the real call, use Ret/Err/Sa as given
 	Post   error // set by Before: perform the real call, then report this error instead of its result
 }
 
@@ -137,6 +138,7 @@ func EpollCtl(epfd int, op int, fd int, event *unix.EpollEvent) error {
 	c := &Call{Name: "epoll_ctl", Fd: epfd, Arg: op, Arg2: fd}
 	if event != nil {
 		c.Events = event.Events
+		c.Data = uint64(uint32(event.Fd)) | uint64(uint32(event.Pad))<<32
 	}
 	do(c, func() { c.Err = unix.EpollCtl(epfd, op, fd, event) })
 	return c.Err
